@@ -2,9 +2,9 @@ from common import *
 from regcommon import *
 import C01, C02
 ID = 'C04'
-TRANSLATORS = [('consts2coq.py', ['coq/Gen/Consts.v'])]
-GEN_FILES = ['coq/Gen/Consts.v']
-COQ_TARGETS = ['Properties_C04.vo', 'Proof/ConstsReg.vo']
+TRANSLATORS = [('consts2coq.py', ['coq/Gen/Consts.v']), ('reg2coq.py', ['coq/Gen/RegLeafGen.v'])]
+GEN_FILES = ['coq/Gen/Consts.v', 'coq/Gen/RegLeafGen.v']
+COQ_TARGETS = ['Properties_C04.vo', 'Proof/ConstsReg.vo', 'Proof/RegLeafT.vo']
 HARNESS_MODS = ['reg']
 RULE = ('reg.run cases (see C01) starting with register_init on arbitrary - mostly ill-formed - descriptions: 0-3 areas with bases/sizes from a small grid (adjacent, overlap by one word, reversed order, equal '
         'bases, size 0), 0-5 registers of all sizes at every placement incl. straddling area ends and holes, defaults inside/outside the constraint, skip-defaults and no-write-callback areas; then one each of '
@@ -19,7 +19,7 @@ LEVEL_TEXT = ('Theorems in Properties_C04.v about Model/RegTable.v: initialisati
               'only if every register lies wholly inside one area (the other failure being a default its own constraint refuses); otherwise the FIRST violated rule is reported in the order no-areas < area order/overlap < '
               'entry order/overlap < entry placement/default with the index of the first offending element (the checks are proved equal to a declarative first-break search); a failed initialisation leaves the table '
               'uninitialised, the flag is set exactly by success, and every operation on an uninitialised table reports UNINITIALISED and changes nothing.  After a successful initialisation of a table whose areas are memory backed (or read/write callback pairs) the table satisfies the invariant of C05, its entries are unchanged and EVERY register reads back its default (C04_post_state) every memory word no register covers is zero (C04_post_state_other_words_zero), and the first/last/count fields of every area describe exactly the contiguous run of registers whose address lies in it (C04_post_state_area_fields).')
-LEVEL_NOTE = 'Trusted: Coq kernel; hand model of register_init (correspondence-tested on the layout grid). No axioms.'
+LEVEL_NOTE = 'Trusted: Coq kernel; hand model of register_init (correspondence-tested on the layout grid). No axioms. Translator tie: ra_addr_is_part_of and ra_reg_fits_into of src/registers/core.c, translated on every check (tools/reg2coq.py), are proved equal to the membership / fit tests of the model; the pre-repair end-address form is refuted (Proof/RegLeafT.v).'
 
 def gen(rng, tier):
     big = tier == 'thorough'
